@@ -4,6 +4,6 @@ P=$1; shift
 D=$(mktemp -d); cp -r /repo/miros $D/
 (cd $D && patch -p1 -s < $P) || { echo "patch failed"; rm -rf $D; exit 2; }
 for c in "$@"; do
-  (cd /verif && MIROS_REPO=$D VERIF_NO_EVIDENCE=1 PYTHONHASHSEED=0 /venv/bin/python -m harness.run $c --tier ${TIER:-quick} 2>&1 | grep -v "^VIOLATION" | tail -2)
+  (cd /verif && MIROS_REPO=$D VERIF_NO_EVIDENCE=1 PYTHONHASHSEED=0 /venv/bin/python -m harness.run $c --tier ${TIER:-quick} 2>&1 | grep -E "^(C[0-9]+ (quick|thorough)|failure|KNOWN|harness)" | cut -c1-300)
 done
 rm -rf $D
